@@ -6,7 +6,7 @@ import impl, gen, oracle
 from impl import quiet, UnmatchedInstancePair, MaximizeMergeMatching
 from common import score_matches
 
-RULE = ("references covered by 2-5 prediction fragments (column chunks of a box, some spilling far outside, some dropped, "
+RULE = ("half of the cases through long-lived matcher objects reused across different inputs with the same label values; references with 15-40 one-voxel fragments carrying sparse labels; references covered by 2-5 prediction fragments (column chunks of a box, some spilling far outside, some dropped, "
         "fragments shared between two references) plus object-based random maps x metric {IOU,DSC,ASSD} x thresholds; "
         "non-trivial = a reference with >= 2 candidate fragments of which at least one is rejected or merged")
 
@@ -102,12 +102,20 @@ def check_merge(pred, ref, metric, thr, order):
     return fails, fragile, nontriv
 
 
-def one_case(ctx, pred, ref, metric, thr, src):
+_SHARED = {}
+
+
+def one_case(ctx, pred, ref, metric, thr, src, shared=False):
     if not pred.any() or not ref.any():
         return
     inp = {"shape": list(pred.shape), "pred": gen.arr_json(pred), "ref": gen.arr_json(ref), "metric": metric,
-           "thr": list(thr), "src": src}
-    m = MaximizeMergeMatching(matching_metric=impl.METRICS[metric], matching_threshold=thr[0] / thr[1])
+           "thr": list(thr), "src": src, "dtype": str(pred.dtype), "shared_matcher": shared}
+    key = (metric, tuple(thr))
+    if shared:
+        m = _SHARED.setdefault(key, MaximizeMergeMatching(matching_metric=impl.METRICS[metric], matching_threshold=thr[0] / thr[1]))
+        ctx.count("shared_matcher_object")
+    else:
+        m = MaximizeMergeMatching(matching_metric=impl.METRICS[metric], matching_threshold=thr[0] / thr[1])
     try:
         with quiet():
             lm = m._match_instances(UnmatchedInstancePair(pred, ref))
@@ -165,13 +173,37 @@ def corpus(ctx):
     one_case(ctx, pred, ref, "DSC", (3, 10), "corpus.spill")
 
 
+def many_fragments(rng):
+    """a reference almost covered by one big fragment plus 15-40 one-voxel fragments with sparse labels, and one
+    fragment that lies mostly outside"""
+    side = rng.choice([24, 30])
+    ref = np.zeros((side, side), np.uint32)
+    ref[2:side - 2, 2:side - 2] = 1
+    pred = np.zeros((side, side), np.uint32)
+    step = rng.choice([1, 1000])
+    pred[2:side // 2 + 2, 2:side - 2] = step
+    k = rng.randint(15, 40)
+    lab = 2
+    cells = [(y, x) for y in range(side // 2 + 3, side - 2) for x in range(2, side - 2)]
+    for (y, x) in rng.sample(cells, k):
+        pred[y, x] = lab * step
+        lab += 1
+    pred[side - 3, 2:4] = lab * step
+    pred[side - 2:side, 0:side] = lab * step       # spills far outside the reference
+    return pred, ref
+
+
 def run(ctx):
     corpus(ctx)
     rng = ctx.rng
+    for i in range(ctx.scale(6, 40)):
+        p, r = many_fragments(rng)
+        ctx.count("many_sparse_fragments")
+        one_case(ctx, p, r, rng.choice(["IOU", "DSC"]), rng.choice([(1, 4), (1, 2)]), f"manyfrag{i}", shared=rng.random() < 0.5)
     for i in range(ctx.scale(1500, 8000)):
         pred, ref = frag_case(rng) if rng.random() < 0.7 else gen.pair(rng, hi=8, max_obj=4, allow_empty=False)
         metric = rng.choice(["IOU", "IOU", "DSC", "ASSD"])
-        one_case(ctx, pred, ref, metric, rng.choice(GRID[metric]), f"rand{i}")
+        one_case(ctx, pred, ref, metric, rng.choice(GRID[metric]), f"rand{i}", shared=rng.random() < 0.5)
 
 
 def search(ctx):
@@ -184,5 +216,6 @@ def search(ctx):
 
 def replay(ctx, rec):
     i = rec["input"]
-    one_case(ctx, np.array(i["pred"], dtype=np.uint8).reshape(i["shape"]), np.array(i["ref"], dtype=np.uint8).reshape(i["shape"]),
+    dt = np.dtype(i.get("dtype", "uint8"))
+    one_case(ctx, np.array(i["pred"], dtype=dt).reshape(i["shape"]), np.array(i["ref"], dtype=dt).reshape(i["shape"]),
              i["metric"], tuple(i["thr"]), "replay")
